@@ -125,6 +125,7 @@ class Result:
         self.asserts = []    # (bb, kind, cond term, operands)
         self.block_in = {}
         self.block_out = {}
+        self.argvals = {}    # uid of an opaque call term -> referents of its reference arguments at call time
         self.pruned = set()
 
 
@@ -534,6 +535,12 @@ class Eval:
                 self.res.stores.extend(r.stores)
             else:
                 val = ("call", name, tuple(freeze(a) for a in args), self.uid())
+                # the referents of reference arguments at the time of the call (before any havoc), for rules that follow
+                # values through opaque calls
+                try:
+                    self.res.argvals[val[3]] = [self.read_ref(env, a) if (isinstance(a, tuple) and a and a[0] == "ref") else None for a in args]
+                except Exception:
+                    pass
                 # havoc everything reachable through &mut arguments
                 for i, a in enumerate(args):
                     aty = self._arg_type(c, i)
